@@ -7,6 +7,10 @@
   docstring every function / class without a docstring gets one (the first statement of every body changes)
   tempvar  every `return <call>` of a function that is not a generator becomes `result_tv = <call>; return result_tv`
            (an idiom change: measures how much the checks depend on the literal shape of return statements)
+  invertif every `if c: A else: B` (no elif) and every `a if c else b` INSIDE a function becomes `if not c: B else: A` /
+           `b if not c else a`; `not` is folded for `not x`, `==`/`!=`, `is`/`is not`, `in`/`not in` (measures dependence on guard polarity)
+  comp2loop every `name = [e for v in it if c]` / `{...}` / `{k: v ...}` (one generator, inside a function, comprehension variables
+           not used elsewhere in the function) becomes `name = []` + a for loop with append / add / item assignment
 Remove <dest> after use."""
 import ast
 import pathlib
@@ -126,6 +130,92 @@ def main():
                             c.body = self._block(c.body)
                     return node
             T().visit(tree)
+            ast.fix_missing_locations(tree)
+        if mode == "invertif":
+            INV = {ast.Eq: ast.NotEq, ast.NotEq: ast.Eq, ast.Is: ast.IsNot, ast.IsNot: ast.Is, ast.In: ast.NotIn, ast.NotIn: ast.In}
+
+            def negate(c):
+                if isinstance(c, ast.UnaryOp) and isinstance(c.op, ast.Not):
+                    return c.operand
+                if isinstance(c, ast.Compare) and len(c.ops) == 1 and type(c.ops[0]) in INV:
+                    return ast.Compare(left=c.left, ops=[INV[type(c.ops[0])]()], comparators=c.comparators)
+                return ast.UnaryOp(op=ast.Not(), operand=c)
+
+            class I(ast.NodeTransformer):
+                depth = 0
+
+                def visit_FunctionDef(self, node):
+                    self.depth += 1
+                    self.generic_visit(node)
+                    self.depth -= 1
+                    return node
+                visit_AsyncFunctionDef = visit_FunctionDef
+
+                def visit_If(self, node):
+                    self.generic_visit(node)
+                    if self.depth and node.orelse and not (len(node.orelse) == 1 and isinstance(node.orelse[0], ast.If)):
+                        nonlocal n
+                        n += 1
+                        return ast.If(test=negate(node.test), body=node.orelse, orelse=node.body)
+                    return node
+
+                def visit_IfExp(self, node):
+                    self.generic_visit(node)
+                    if self.depth:
+                        nonlocal n
+                        n += 1
+                        return ast.IfExp(test=negate(node.test), body=node.orelse, orelse=node.body)
+                    return node
+            I().visit(tree)
+            ast.fix_missing_locations(tree)
+        if mode == "comp2loop":
+            def rewrite_fn(fn):
+                nonlocal n
+                # names used anywhere in the function, with multiplicity
+                def convert(stmts):
+                    nonlocal n
+                    out = []
+                    for st in stmts:
+                        for field in ("body", "orelse", "finalbody"):
+                            v = getattr(st, field, None)
+                            if isinstance(v, list) and v and isinstance(v[0], ast.stmt) and not isinstance(st, (ast.FunctionDef, ast.AsyncFunctionDef, ast.ClassDef)):
+                                setattr(st, field, convert(v))
+                        if isinstance(st, ast.Try):
+                            for h in st.handlers:
+                                h.body = convert(h.body)
+                        c = st.value if isinstance(st, ast.Assign) and len(st.targets) == 1 and isinstance(st.targets[0], ast.Name) else None
+                        if isinstance(c, (ast.ListComp, ast.SetComp, ast.DictComp)) and len(c.generators) == 1 and not c.generators[0].is_async:
+                            g = c.generators[0]
+                            tnames = {x.id for x in ast.walk(g.target) if isinstance(x, ast.Name)}
+                            inside = {id(x) for x in ast.walk(c)}
+                            clash = any(isinstance(x, ast.Name) and x.id in tnames and id(x) not in inside for x in ast.walk(fn))
+                            tgt = st.targets[0].id
+                            selfref = any(isinstance(x, ast.Name) and x.id == tgt for x in ast.walk(c))
+                            has_scope = any(isinstance(x, (ast.Lambda, ast.ListComp, ast.SetComp, ast.DictComp, ast.GeneratorExp, ast.NamedExpr))
+                                            for x in ast.walk(c) if x is not c)
+                            if not clash and not selfref and not has_scope:
+                                n += 1
+                                if isinstance(c, ast.ListComp):
+                                    init = ast.List(elts=[], ctx=ast.Load())
+                                    add = ast.Expr(ast.Call(func=ast.Attribute(value=ast.Name(id=tgt, ctx=ast.Load()), attr="append", ctx=ast.Load()), args=[c.elt], keywords=[]))
+                                elif isinstance(c, ast.SetComp):
+                                    init = ast.Call(func=ast.Name(id="set", ctx=ast.Load()), args=[], keywords=[])
+                                    add = ast.Expr(ast.Call(func=ast.Attribute(value=ast.Name(id=tgt, ctx=ast.Load()), attr="add", ctx=ast.Load()), args=[c.elt], keywords=[]))
+                                else:
+                                    init = ast.Dict(keys=[], values=[])
+                                    add = ast.Assign(targets=[ast.Subscript(value=ast.Name(id=tgt, ctx=ast.Load()), slice=c.key, ctx=ast.Store())], value=c.value)
+                                body = [add]
+                                for cond in reversed(g.ifs):
+                                    body = [ast.If(test=cond, body=body, orelse=[])]
+                                out.append(ast.copy_location(ast.Assign(targets=[ast.Name(id=tgt, ctx=ast.Store())], value=init), st))
+                                out.append(ast.copy_location(ast.For(target=g.target, iter=g.iter, body=body, orelse=[]), st))
+                                continue
+                        out.append(st)
+                    return out
+                fn.body = convert(fn.body)
+            for fn in [x for x in ast.walk(tree) if isinstance(x, (ast.FunctionDef, ast.AsyncFunctionDef))]:
+                # only outermost handling per function body; nested functions are visited on their own
+                rewrite_fn(fn)
             ast.fix_missing_locations(tree)
         p.write_text(ast.unparse(tree) + "\n")
     print(f"{mode}: wrote {dest} ({n} locals renamed)")
